@@ -80,6 +80,11 @@ func listToMsg(msgType wamp.MessageType, vlist []any) (wamp.Message, error) {
 		}
 		// If field and list item type is slice, then assign item to msg field.
 		if f.Type().Kind() == reflect.Slice {
+			// A binary string is not a list of numbers.
+			if arg.Type().Elem().Kind() == reflect.Uint8 {
+				return nil, fmt.Errorf("field %d not recognized, has %s, want %s",
+					i+1, arg.Type(), f.Type())
+			}
 			if err := assignSlice(f, arg); err != nil {
 				return nil, err
 			}
